@@ -33,7 +33,7 @@ Definition ggroup (c : gcircuit) (g : nat) : list gedge := filter (fun e => Nat.
 Definition group_spread (c : gcircuit) (g : nat) : bool := existsb has_spread (ggroup c g).
 
 (* delay `m` of a slot as _collect_delays_from_edges hands it on: time units when the edge has a spread, steps otherwise *)
-(* model switch for fixes/proposed_fix_C11_dde_steps.diff (false = the code as it is): with dde_approx > 0 a delay without
+(* model switch of fix D71 (landed, on; false = the code before it): with dde_approx > 0 a delay without
    spread is no longer discretised before rate = n/m.  Ring.fixed_D15 (placeholder 0 instead of 1 for an edge without delay)
    acts here too: order = dde_approx if m else 0. *)
 Definition fixed_dde_steps : bool := true.
@@ -55,13 +55,17 @@ Definition slot_rate (c : gcircuit) (e : gedge) : Qc :=
   if Qceqb (slot_m c e) 0%Qc then 0%Qc else (of_nat (slot_order c e) / slot_m c e)%Qc.
 
 Definition g_has_delay (e : gedge) : bool := match gd e with Some _ => true | None => false end.
-(* add_delay of the group of e *)
+(* add_delay for the KERNEL (ODE-branch) buffer of a (merged) source variable.  Since D114 the edges with a spread and the edges without
+   one are two partitions, each with its own _collect_delays_from_edges call and its own add_delay decision:
+     dde_approx = 0 : the spread partition is implemented iff SOME edge of it has a delay above the step size (floats: max > step_size;
+                      there is no per-edge neglect for spread edges, so a sub-step spread delay keeps its kernel when a sibling spread
+                      edge is above the step, and loses it — pass-through — when none is, whatever the plain siblings do);
+                      the partition of the spread-less edges decides on its discrete step counts: see impl_step;
+     dde_approx > 0 : one partition, every delay a kernel in time units (D119: no per-edge neglect), max over all delays > step_size. *)
 Definition gadd_delay (c : gcircuit) (g : nat) : bool :=
-  if group_spread c g || (continuous c && existsb g_has_delay (ggroup c g))
-  then existsb (fun e => negb (Qle_bool (this (slot_m c e)) (this (gdt c)))) (ggroup c g)
-  else existsb (fun e => negb (Qle_bool (this (slot_m c e)) 1)) (ggroup c g).
-(* (with fix D114 (fixes/round8/05_D114.diff) the first test runs over the edges WITH a spread only; the difference shows only when
-   every spread edge of the group has a delay <= dt, which g_above_step excludes) *)
+  if continuous c
+  then existsb g_has_delay (ggroup c g) && existsb (fun e => negb (Qle_bool (this (slot_m c e)) (this (gdt c)))) (ggroup c g)
+  else existsb (fun e => has_spread e && negb (Qle_bool (this (slot_m c e)) (this (gdt c)))) (ggroup c g).
 
 (* round(rate, 12) *)
 Definition ten12 : Qc := Q2Qc (inject_Z 1000000000000).
@@ -95,7 +99,7 @@ Fixpoint shared_chain (c : gcircuit) (l : list gedge) : bool :=
   | [] => false
   | e :: l' => existsb (same_chain c e) l' || shared_chain c l'
   end.
-(* model switch for fixes/proposed_fix_C11_scalar_chain.diff (false = the code as it is): a scalar source variable is broadcast *)
+(* model switch of fix D95 (landed, on; false = the code before it): a scalar source variable is broadcast *)
 Definition fixed_scalar_chain : bool := true.
 Definition gcrashes (c : gcircuit) : bool :=
   negb fixed_scalar_chain && gvec c && existsb (fun e => let g := gkey c (gsrc e) in
@@ -134,10 +138,10 @@ Definition g_conn (c : gcircuit) : bool :=
    spread-less edges that are buffered together exceeds 1 (Ring.gadd). *)
 Definition plain_steps (c : gcircuit) (e : gedge) : nat :=
   match gd e with Some (d, None) => steps_of d (gdt c) | _ => O end.
-(* D114 (open): as the code is, ALL scalar edges leaving a (merged) source variable share one _add_edge_buffer call; as soon as one of
+(* D114 (repaired in /repo, switch on): before the fix ALL scalar edges leaving a (merged) source variable share one _add_edge_buffer call; as soon as one of
    them has a spread the ODE branch is taken for all, and a spread-less edge gets the kernel of order `dde_approx if m else 0` = 0: a
    pass-through, its discrete delay is silently dropped (vectorize=True: whenever ANY unit of the merged source vector has a spread edge).
-   fixed_mixed_kinds: false = the code as it is; true = fix D114 (fixes/round8/05_D114.diff) (the two kinds are buffered separately). *)
+   fixed_mixed_kinds (on): false = the code before the fix; true = fix D114 (fixes/round8/05_D114.diff) (the two kinds are buffered separately). *)
 Definition fixed_mixed_kinds : bool := true.
 (* D118: a discrete delay of at most one step is neglected per edge (Ring.neglect); time-unit delays <= step_size of spread-less edges
    under dde_approx are neglected per edge as well — that case is not generated and not modelled (slot_m keeps them) *)
@@ -213,19 +217,24 @@ Definition g_all_spread (c : gcircuit) : bool :=
    kernel of mean 1 (holds of every circuit once Ring.fixed_D15 is on) *)
 Definition g_no_undelayed_kernel (c : gcircuit) : bool :=
   forallb (fun e => match gd e with None => Nat.eqb (slot_order c e) 0 || negb (gadd_delay c (gkey c (gsrc e))) | _ => true end) (gedges c).
-(* every delayed edge is actually implemented (its group has a delay above the step size) *)
+(* scope: every kernel edge is actually implemented — its PARTITION has a delay above the step size (a kernel edge whose partition stays
+   at or below the step is deliberately neglected: pass-through).  A spread-less edge under dde_approx = 0 is a discrete delay; its scope
+   condition is g_plain_ge2. *)
 Definition g_above_step (c : gcircuit) : bool :=
-  forallb (fun e => match gd e with Some _ => gadd_delay c (gkey c (gsrc e)) | None => true end) (gedges c).
+  forallb (fun e => match gd e with
+                    | Some (_, Some _) => gadd_delay c (gkey c (gsrc e))
+                    | Some (_, None) => negb (continuous c) || gadd_delay c (gkey c (gsrc e))
+                    | None => true end) (gedges c).
 (* slots that share a chain have the same rate (round(rate,12) does not merge different rates) *)
 Definition g_rates_exact (c : gcircuit) : bool :=
   forallb (fun e => Qceqb (chain_rate c e) (slot_rate c e)) (gedges c).
 Definition g_no_scalar_shared_chain (c : gcircuit) : bool := negb (gcrashes c).
-(* D101 (open; see Ring.g_no_tap_on_buffered): a sibling operator of a buffered source operator reads `x_buffered`.  A tap is modelled
+(* D101 (repaired in /repo, switch on; see Ring.g_no_tap_on_buffered): a sibling operator of a buffered source operator reads `x_buffered`.  A tap is modelled
    as an edge without delay of weight 1 to an extra integrator node; the defective read is not modelled, the guard delimits the class. *)
 Definition dgedge : gedge := mkG 0 0 0%Qc None.
 Definition g_no_tap_on_buffered (taps : list nat) (c : gcircuit) : bool :=
   fixed_tap || forallb (fun i => negb (gadd_delay c (gkey c (gsrc (nth i (gedges c) dgedge))))) taps.
-(* D102 (open): a delay that stays in time units (spread, or dde_approx) but is written as a Python int takes the integer branch of
+(* D102 (repaired in /repo, switch on): before the fix a delay that stays in time units (spread, or dde_approx) but is written as a Python int takes the integer branch of
    the add_delay test (max_delay > 1, meant for step counts): `delay: 1, spread: 0.5` is silently ignored unless a float-valued or
    larger delay shares the source variable.  `ints` = positions of the edges whose delay is passed as an int.  Not modelled by Impl;
    the guard (conservative: no int-passed delay <= 1) delimits the class; repaired by fixes/fix_D102.diff (float(delay)). *)
@@ -234,14 +243,14 @@ Definition g_no_int_unit_delay (ints : list nat) (c : gcircuit) : bool :=
   fixed_int_delay || forallb (fun i => match gd (nth i (gedges c) dgedge) with
                                        | Some (d, _) => negb (Qle_bool (this d) 1)
                                        | None => true end) ints.
-(* D103 (open; see Ring.g_uniform_keys): in one vectorized edge group an edge with a `spread` entry next to one without leaves the
+(* D103 (repaired in /repo, switch on; see Ring.g_uniform_keys): in one vectorized edge group an edge with a `spread` entry next to one without leaves the
    group's delay / spread lists out of step (silently wrong kernels).  Not modelled; the guard delimits the class. *)
 Definition g_uniform_keys (c : gcircuit) : bool :=
   fixed_group_keys || negb (gvec c) ||
   forallb (fun e => forallb (fun e' => negb (Nat.eqb (gkey c (gsrc e)) (gkey c (gsrc e')) && Nat.eqb (gkey c (gtgt e)) (gkey c (gtgt e')) &&
                                               Bool.eqb (g_is_delayed e) (g_is_delayed e')) ||
                                        Bool.eqb (has_spread e) (has_spread e')) (gedges c)) (gedges c).
-(* D110 (open, loud; see Ring.g_no_twin_collision): delayed edges leaving two variables of one operator do not compile *)
+(* D110 (repaired in /repo, switch on; see Ring.g_no_twin_collision): delayed edges leaving two variables of one operator do not compile *)
 Definition g_no_twin_collision (twins : list (nat * nat)) (c : gcircuit) : bool :=
   fixed_twin_names || forallb (fun p => negb (gadd_delay c (gkey c (fst p)) && gadd_delay c (gkey c (snd p)))) twins.
 (* the discrete delays of the spread-less edges are the specified ones.  False exactly on D114 (a plain delay that shares its (merged)
@@ -258,7 +267,7 @@ Definition g_plain_ge2 (c : gcircuit) : bool :=
    declares `buffered` with one entry per slot.  It is right only when the spread-less slots of a merged source variable are exactly its
    units 0..U-1 in this order; otherwise: a (1,) array where the edge equation expects a scalar (ValueError at the first call), an index out
    of range, or slots that are never written.  Not modelled (the adaptive solvers are outside this model); the guard delimits the class for
-   the adaptive correspondence stream.  fixed_dde_slots: false = the code as it is (repaired by fix D115, fixes/round9/01_D115.diff). *)
+   the adaptive correspondence stream.  fixed_dde_slots (on): false = the code before the fix (repaired by fix D115, fixes/round9/01_D115.diff). *)
 Definition fixed_dde_slots : bool := true.
 Definition same_class (a b : node) : bool := Bool.eqb (nsrc a) (nsrc b) && Nat.eqb (ncls a) (ncls b).
 Definition unit_of (c : gcircuit) (i : nat) : nat := length (filter (same_class (gnode c i)) (firstn i (gnodes c))).
